@@ -11,7 +11,7 @@
 #define VM_NTYPES 3
 #define VM_NBUF 3
 
-enum vm_rule { VR_NONE, VR_SELF1, VR_NEIGH1, VR_NEIGH0_LOWER, VR_NEIGH2_BIG, VR_TIE, VR_CHAIN, VR_FAN2, VR_T0_TWICE, VR_TIE_BIG, VR_NRULES };
+enum vm_rule { VR_NONE, VR_SELF1, VR_NEIGH1, VR_NEIGH0_LOWER, VR_NEIGH2_BIG, VR_TIE, VR_CHAIN, VR_FAN2, VR_T0_TWICE, VR_TIE_BIG, VR_RELAY0, VR_NRULES };
 enum vm_pred { VP_COUNT_STOP, VP_TRUE_AT_INIT, VP_FIRST_AT_T0, VP_NONMONOTONE, VP_NEVER, VP_COUNT_CONT };
 enum vm_rng { VG_NONE, VG_U64, VG_RANDOM, VG_EXPENT, VG_NORMAL, VG_GAMMA, VG_ZIPF, VG_RANGE, VG_NKINDS };
 
